@@ -3,7 +3,10 @@ package gen
 import (
 	"crypto"
 	"crypto/sha256"
+	"crypto/x509"
 	"crypto/x509/pkix"
+	"encoding/pem"
+	"fmt"
 	"hash/crc32"
 	"math/big"
 	"time"
@@ -104,6 +107,17 @@ func MakeCRLByHand(issuer *Cert, key *Key, cs CRLSpec, issuerRaw []byte, withNum
 		}
 		tbsKids = append(tbsKids, Seq(entries...))
 	}
+	if len(cs.RevokedRaw) > 0 {
+		var entries []*Node
+		if len(cs.Revoked) > 0 {
+			entries = tbsKids[len(tbsKids)-1].Kids
+			tbsKids = tbsKids[:len(tbsKids)-1]
+		}
+		for _, raw := range cs.RevokedRaw {
+			entries = append(entries, Seq(IntRaw(raw), derTime(tu)))
+		}
+		tbsKids = append(tbsKids, Seq(entries...))
+	}
 	if withNumber {
 		num := Seq(OID(2, 5, 29, 20), Octet(IntMin(cs.Number+1).Encode()))
 		tbsKids = append(tbsKids, &Node{Tag: 0xa0, Kids: []*Node{Seq(num)}})
@@ -115,4 +129,90 @@ func MakeCRLByHand(issuer *Cert, key *Key, cs CRLSpec, issuerRaw []byte, withNum
 		panic("harness: sign CRL: " + err.Error())
 	}
 	return Seq(&Node{Raw: tbs}, sigAlg, &Node{Tag: 0x03, Content: append([]byte{0}, sig...)}).Encode()
+}
+
+// splitTLVs cuts the content of a constructed DER value into the full encodings of its elements.
+func splitTLVs(content []byte) ([][]byte, error) {
+	var out [][]byte
+	for len(content) > 0 {
+		_, rest, err := readTLV(content)
+		if err != nil {
+			return nil, err
+		}
+		out = append(out, content[:len(content)-len(rest)])
+		content = rest
+	}
+	return out, nil
+}
+
+// RebuildCert re-encodes a certificate after edit has changed the elements of its TBSCertificate (kids: [0] version,
+// serial, signature algorithm, issuer, validity, subject, subjectPublicKeyInfo, ...; each the full DER of the element).
+// With a signer the result is signed afresh (ECDSA with SHA-256, as all certificates of the harness are); without one
+// the old signature value is kept (it then no longer matches: a certificate that merely looks like the original).
+// It makes certificates the standard library refuses to create (a serial number of zero, a negative one) and
+// look-alikes that keep another certificate's signature bytes.
+func RebuildCert(der []byte, signer *Key, edit func(kids [][]byte) [][]byte) ([]byte, error) {
+	outer, rest, err := readTLV(der)
+	if err != nil || len(rest) != 0 {
+		return nil, fmt.Errorf("certificate framing: %v", err)
+	}
+	parts, err := splitTLVs(outer.content)
+	if err != nil || len(parts) != 3 {
+		return nil, fmt.Errorf("certificate has %d parts: %v", len(parts), err)
+	}
+	tbs, _, err := readTLV(parts[0])
+	if err != nil {
+		return nil, err
+	}
+	kids, err := splitTLVs(tbs.content)
+	if err != nil {
+		return nil, err
+	}
+	kids = edit(kids)
+	var body []byte
+	for _, k := range kids {
+		body = append(body, k...)
+	}
+	newTBS := (&Node{Tag: 0x30, Content: body}).Encode()
+	sig := parts[2]
+	if signer != nil {
+		h := sha256.Sum256(newTBS)
+		s, err := signer.Sign(nil, h[:], nil)
+		if err != nil {
+			return nil, err
+		}
+		sig = (&Node{Tag: 0x03, Content: append([]byte{0}, s...)}).Encode()
+	}
+	return (&Node{Tag: 0x30, Content: append(append(append([]byte{}, newTBS...), parts[1]...), sig...)}).Encode(), nil
+}
+
+// CertFromDER wraps a DER certificate (parsed by the standard library) the way MakeCert's results are wrapped.
+func CertFromDER(der []byte, key *Key) (*Cert, error) {
+	x, err := x509.ParseCertificate(der)
+	if err != nil {
+		return nil, err
+	}
+	return &Cert{X: x, DER: der, PEM: pem.EncodeToMemory(&pem.Block{Type: "CERTIFICATE", Bytes: der}), Key: key}, nil
+}
+
+// LookAlikeKeepingSignature returns a certificate that is byte for byte the given one except for its public key, which
+// is key's: serial, names, validity, extensions AND the signature value are the original's (the signature therefore
+// does not verify - it is merely the same bytes).
+func LookAlikeKeepingSignature(c *Cert, key *Key) *Cert {
+	spki, err := x509.MarshalPKIXPublicKey(&key.Pub)
+	if err != nil {
+		panic("harness: " + err.Error())
+	}
+	der, err := RebuildCert(c.DER, nil, func(k [][]byte) [][]byte {
+		k[6] = spki
+		return k
+	})
+	if err != nil {
+		panic("harness: " + err.Error())
+	}
+	out, err := CertFromDER(der, key)
+	if err != nil {
+		panic("harness: " + err.Error())
+	}
+	return out
 }
